@@ -31,7 +31,7 @@ def record(name, index, members, array=False):
     return rec
 
 
-def add_pdo_objects(d, kind, number, cob_default=None, subs=(1, 2, 3, 5, 6), n_map=8, defaults=None):
+def add_pdo_objects(d, kind, number, cob_default=None, subs=(1, 2, 3, 5, 6), n_map=8, defaults=None, map_as_array=False):
     """Add communication + mapping objects of RPDO/TPDO ``number`` (1-based)."""
     com = (0x1400 if kind == "rpdo" else 0x1800) + number - 1
     mp = (0x1600 if kind == "rpdo" else 0x1A00) + number - 1
@@ -46,7 +46,7 @@ def add_pdo_objects(d, kind, number, cob_default=None, subs=(1, 2, 3, 5, 6), n_m
     members = [variable("Number of mapped objects", mp, 0, U8, "rw", default=defaults.get((mp, 0)))]
     for s in range(1, n_map + 1):
         members.append(variable(f"Mapping entry {s}", mp, s, U32, "rw", default=defaults.get((mp, s))))
-    d.add_object(record(f"{kind.upper()} {number} mapping parameter", mp, members))
+    d.add_object(record(f"{kind.upper()} {number} mapping parameter", mp, members, array=map_as_array))
     return com, mp
 
 
